@@ -156,6 +156,9 @@ func init() {
 			"scale-raw":       {"main", strings.Repeat("static text with some length, ", 700) + "{%= user.Id %}"},
 			// lengths beyond the small-integer range in len() / cap() conditions, on a field, a static value and a ctx-made bytes variable
 			"scale-len": {"main", `{% if len(big) >= 300 %}L{% endif %}{% if cap(big) > 256 %}C{% endif %}{% ctx bb = big %}{% if len(bb) >= 1000 %}B{% else %}b{% endif %}{% if len(lst) > 3 %}4{% endif %}`},
+			// template names longer than a small-string buffer, in a key list with missing entries
+			"scale-long-names": {"a/rather/long/path-like/template/name/with/more/than/thirty-two/bytes.tpl", `<li>{%= user.Id %}</li>`, "main",
+				`{% include a/rather/long/path-like/template/name/with/more/than/thirty-two/bytes.tpl %}{% . no/such/template/under/this/long/path/either/anywhere.tpl a/rather/long/path-like/template/name/with/more/than/thirty-two/bytes.tpl %}`},
 			// includes (also nested) executed while bound tags are open, and bound tags opened inside the included template
 			"scale-include-in-region": {"subr", `<b>{%= user.Id %}</b>{% jsonquote %}"q"{% endjsonquote %}`, "main",
 				`{% htmlescape %}{% include subr %}{% jsonquote %}{% include subr %}{% urlencode %}{% . subr %}{% endurlencode %}{% endjsonquote %}{% for i:=0; i<3; i++ %}{% include subr %}{% endfor %}{% endhtmlescape %}`},
